@@ -1,7 +1,7 @@
 (* C04 -- property theorems only. `_refuted` theorems are facts about the faithful model of the CURRENT code
    (the correspondence check replays their witnesses on the implementation); see known_findings.json. *)
 From Coq Require Import ZArith List Bool.
-From WNTRV Require Import Lib.Sched C04.Proofs C04.AtTime C04.RuleGe C04.Prio.
+From WNTRV Require Import Lib.Sched C04.Proofs C04.AtTime C04.RuleGe C04.Prio C04.Window.
 Import ListNotations.
 Local Open Scope Z_scope.
 
@@ -87,6 +87,21 @@ Theorem C04_priority_wins_one_step : forall thr hs rs sc D l vlo vhi st0 plo phi
       Some ((t1, set_nth st l vhi), (false, t1, t1 + hs - (t1 + hs) mod hs, ri1, set_nth st l vhi))
     /\ nth l (set_nth st l vhi) (negb vhi) = vhi.
 Proof. intros. apply priority_wins_one_step; assumption. Qed.
+(* a WINDOW: "on" AT TIME ts and "off" AT TIME te (0 < ts < te) on one target, any grids, any run length, from an "off" start: at every
+   solved step the target is on exactly when ts <= time < te, and steps are solved at exactly ts and at exactly te whenever the run gets
+   that far -- also when both instants lie inside ONE hydraulic step (the case in which a scheduler that looks at each due control once
+   would lose the second) *)
+Theorem C04_window_exact : forall ts te hs rs sc D l st0 p f tr sf,
+  0 < rs -> 0 < hs -> 0 < ts < te -> (l < length st0)%nat -> nth l st0 true = false ->
+  steps f (g2 ts te hs rs sc D l st0 p) D (init_state (g2 ts te hs rs sc D l st0 p)) = Some (tr, sf) ->
+  (forall e, In e tr -> nth l (snd e) false = active ts te (fst e) /\ snd e = set_nth st0 l (active ts te (fst e))) /\
+  (ts <= s_prev sf -> In ts (map fst tr)) /\ (te <= s_prev sf -> In te (map fst tr)).
+Proof. intros ts te hs rs sc D l st0 p f tr sf H1 H2 H3 H4 H5 H6. exact (window_exact ts te hs rs sc D l st0 p H1 H2 H3 H4 f tr sf H5 H6). Qed.
+(* non-vacuity: both instants inside the first hydraulic step (3600 s): solved steps at 0, 1000, 2500, 3600, 7200 *)
+Example C04_window_run :
+  option_map (fun r => map fst (fst r)) (steps 20 (g2 1000 2500 3600 360 0 7200 0 [false] 3) 7200 (init_state (g2 1000 2500 3600 360 0 7200 0 [false] 3)))
+  = Some [0; 1000; 2500; 3600; 7200].
+Proof. vm_compute. reflexivity. Qed.
 (* a rule IF SYSTEM TIME >= thr (thr > 0), for EVERY threshold, grid and duration: it acts at J * rule_step, the first multiple of the
    rule step that is >= thr (J = ceil(thr / rule_step)); a step is solved there -- also inside a hydraulic step --, nothing changes before
    and the value is kept after *)
@@ -110,6 +125,7 @@ Print Assumptions C04_last_applied_wins.
 Print Assumptions C04_at_time_control_exact.
 Print Assumptions C04_rule_ge_acts_at_first_instant.
 Print Assumptions C04_priority_wins_one_step.
+Print Assumptions C04_window_exact.
 Print Assumptions C04_at_time_fires_exactly.
 Print Assumptions C04_at_time_silent_otherwise.
 Print Assumptions C04_clock_control_daily_refuted.
